@@ -19,6 +19,7 @@ type c14Case struct {
 	Variant int      `json:"variant"`
 	Trim    bool     `json:"trim"`
 	LStrip  bool     `json:"lstrip"`
+	WErr    int      `json:"writer_error,omitempty"` // which error the failing caller's writer reports
 }
 
 // plainWriter implements only io.Writer (no WriteString), records everything
@@ -27,6 +28,10 @@ type plainWriter struct{ buf []byte }
 func (w *plainWriter) Write(p []byte) (int, error) { w.buf = append(w.buf, p...); return len(p), nil }
 
 var errWriter = errors.New("caller's writer failed")
+
+// whatever error the caller's writer reports is the caller's business: sentinel errors of the
+// standard library are errors like any other
+var c14WriterErrs = []error{errors.New("caller's writer failed"), io.EOF, io.ErrShortWrite, io.ErrUnexpectedEOF, io.ErrClosedPipe, fmt.Errorf("wrapped: %w", io.EOF), bytes.ErrTooLarge}
 
 // failingWriter accepts n bytes and then fails
 type failingWriter struct {
@@ -191,6 +196,7 @@ func c14RunAll(tpl *pongo2.Template, variant, k int, base *c14Result, partial st
 
 func checkC14(c any, r *Rec) error {
 	cs := c.(*c14Case)
+	errWriter = c14WriterErrs[cs.WErr%len(c14WriterErrs)]
 	_, tpl, _, err := compileProgram(cs.Prog, cs.Trim, cs.LStrip)
 	if err != nil {
 		return skipf("program does not compile: %v | %q", err, cs.Prog.Files[cs.Prog.Entry])
@@ -286,13 +292,14 @@ func checkC14(c any, r *Rec) error {
 
 var _ = register(&propSpec{
 	ID:   "C14.variants",
-	Rule: "generated multi-file programs with {{ tick() }} outputs; for each program the number T of tick calls is measured and EVERY fault position k in 1..T (cap 40) is injected, plus a caller's writer failing after 0/1/mid/len-1 bytes; Execute, ExecuteBytes, ExecuteWriter (io.Writer, *bytes.Buffer, *strings.Builder) and ExecuteWriterUnbuffered must agree on bytes and error text, ExecuteWriter must have written nothing on failure, the unbuffered writer a prefix of the fault-free output, and a fault-free run after the failures must reproduce the original bytes. Non-trivial: T >= 2; distinct by program+context+options.",
+	Rule: "generated multi-file programs with {{ tick() }} outputs; for each program the number T of tick calls is measured and EVERY fault position k in 1..T (cap 40) is injected, plus a caller's writer failing after 0/1/mid/len-1 bytes (three failure styles; the reported error drawn from a custom error, io.EOF, io.ErrShortWrite, io.ErrUnexpectedEOF, io.ErrClosedPipe, a wrapped io.EOF, bytes.ErrTooLarge); Execute, ExecuteBytes, ExecuteWriter (io.Writer, *bytes.Buffer, *strings.Builder) and ExecuteWriterUnbuffered must agree on bytes and error text, ExecuteWriter must have written nothing on failure, the unbuffered writer a prefix of the fault-free output, and a fault-free run after the failures must reproduce the original bytes. Non-trivial: T >= 2; distinct by program+context+options.",
 	Gen: func(t *rapid.T) any {
 		return &c14Case{
 			Prog:    genProgram(t, progOpts{ticks: true, includes: true, inherit: true, stateful: true, errProne: drawInt(t, 0, 4, "errprone") == 0, maxDepth: 3, maxNodes: 25}),
 			Variant: drawInt(t, 0, 11, "variant"),
 			Trim:    drawBool(t, "trim"),
 			LStrip:  drawBool(t, "lstrip"),
+			WErr:    drawInt(t, 0, len(c14WriterErrs)-1, "writererr"),
 		}
 	},
 	New:   func() any { return &c14Case{} },
